@@ -413,15 +413,17 @@ impl ValveProtocol {
                 name: buffer.read_string::<Utf8Decoder>(None)?,
                 score: buffer.read()?,
                 duration: buffer.read()?,
-                deaths: match *engine == Engine::new(2400) {
-                    false => None,
-                    true => Some(buffer.read()?),
-                },
-                money: match *engine == Engine::new(2400) {
-                    false => None,
-                    true => Some(buffer.read()?),
-                },
+                deaths: None,
+                money: None,
             });
+        }
+
+        // The Ship additional player info comes after the basic information of all the players
+        if *engine == Engine::new(2400) {
+            for player in &mut players {
+                player.deaths = Some(buffer.read()?);
+                player.money = Some(buffer.read()?);
+            }
         }
 
         Ok(players)
